@@ -17,8 +17,16 @@ THEOREMS = ["QExPy.Plot.C19_mask", "QExPy.Plot.C19_mask_none", "QExPy.Plot.C19_d
 RULE = ("seeded plot HISTORIES: 1-9 objects added in random order to one Plot, which is rendered, "
         "then (85 % of the cases) further objects are added and/or the plot's x-range, the error-bar / "
         "residual / legend switches and the label overrides are changed and it is rendered again "
-        "(2 or 3 renders); every render is compared with the model's render of the plot state at "
-        "that point. Objects: data sets (x/y uncertainties none / common / per point; names, units; "
+        "(2 to 4 renders; a step may also be a plain re-render); between the renders matplotlib's own "
+        "state follows one of five policies -- the figures of the earlier renders stay open and "
+        "current (the default of a user who calls savefig again), all figures closed, only the "
+        "plot's own figure closed, a figure the user drew with pyplot is open and current, another "
+        "qexpy Plot with a residual panel was rendered and is still open -- and the last two may "
+        "also hold before the first render; every switch is flipped forth and back between "
+        "renders of one plot under every policy deliberately in every run; every render is "
+        "compared with the model's render of the plot state at that point, and the figure that "
+        "savefig wrote must consist of exactly the plot's panels (main; residuals iff the switch "
+        "is on). Objects: data sets (x/y uncertainties none / common / per point; names, units; "
         "passed as arrays, XYDataSet or MeasurementArrays; x-ranges with bounds exactly on points, "
         "between points, outside), functions (8 formula families, plain-number and measured "
         "parameters, own range or the plot domain), fit results of every pre-set model and a custom "
